@@ -67,6 +67,7 @@ type Package struct {
 	Class   string // identifier class used by the hostile stream ("" for plain)
 	Sizes   string // driver: container sizes of the additional passes, comma-separated ("" = none)
 	Steps   int    // driver: length of the sequence run on every stub / proxy pair (0 = none)
+	Dyn     bool   // driver: every action with a dynamic value is repeated once per kind of dynamic value
 }
 
 var scalarLetter = map[string]string{"int8": "c", "uint8": "C", "int16": "w", "uint16": "W", "int32": "i", "uint32": "I",
@@ -216,7 +217,7 @@ func (p *Package) Number() {
 
 // Clone is a deep copy (struct references are re-pointed at the copies).
 func (p *Package) Clone() *Package {
-	q := &Package{Name: p.Name, GenPath: p.GenPath, Stream: p.Stream, Class: p.Class, Sizes: p.Sizes, Steps: p.Steps}
+	q := &Package{Name: p.Name, GenPath: p.GenPath, Stream: p.Stream, Class: p.Class, Sizes: p.Sizes, Steps: p.Steps, Dyn: p.Dyn}
 	m := map[*StructDecl]*StructDecl{}
 	for _, s := range p.Structs {
 		c := &StructDecl{Name: s.Name}
